@@ -89,9 +89,14 @@ func evCorridor(t *Tracer, lon0, lat0, alt0, lon1, lat1, alt1, radius float64, H
 	}
 	ends, _ := shape.GetExtendedSpatialIdsOnPoints([]*object.Point{p0}, H, V)
 	sv, _ := ParseExt(ends[0])
+	// results are recorded relative to the start voxel as centred residues modulo the world size
+	// (a corridor near longitude +-180 continues on the other side); for small worlds (H <= 12) the
+	// model also measures distances circularly, for larger ones the corridor spans far less than half
+	// the world and plain differences of the centred residues suffice
+	world := int64(1) << uint(H)
 	var mod int64
 	if H <= 12 {
-		mod = int64(1) << uint(H)
+		mod = world
 	}
 	var fitH, fitV int64
 	for _, id := range line {
@@ -115,7 +120,7 @@ func evCorridor(t *Tracer, lon0, lat0, alt0, lon1, lat1, alt1, radius float64, H
 				e.Bad = "malformed or wrong zoom: " + s
 				continue
 			}
-			out = append(out, relWrapped(id, sv, mod))
+			out = append(out, relWrapped(id, sv, world))
 		}
 		return out
 	}
@@ -141,7 +146,7 @@ func evCorridor(t *Tracer, lon0, lat0, alt0, lon1, lat1, alt1, radius float64, H
 		for _, s := range strs(rm) {
 			if !onLine[s] && farFromSegment(s, a, b, radius) {
 				id, _ := ParseExt(s)
-				far = append(far, relWrapped(id, sv, mod))
+				far = append(far, relWrapped(id, sv, world))
 			}
 		}
 		e.R = map[string]any{"rm": proj(strs(rm)), "rs": proj(strs(rs))}
